@@ -559,6 +559,7 @@ def run_worker(d, fp, size, mb, max_calls=2000):
     """the real Worker.decompress on a prepared decompressor, with get_memory_limit patched; returns
     (output, peak of managed, final len(_buf)) or ('spin',)"""
     import py7zr.py7zr as pz
+    from py7zr.exceptions import Bad7zFile
     w = pz.Worker.__new__(pz.Worker)
     state = {"peak": 0, "calls": 0}
     orig = d.decompress
@@ -595,6 +596,10 @@ def run_worker(d, fp, size, mb, max_calls=2000):
         pz.Worker.decompress(w, fp, _Folder(d), sink, size, None, 1 << 62)
     except Spin:
         return ("spin",)
+    except Bad7zFile as e:
+        if "unexpected end of compressed stream" in str(e):
+            return ("stall",)     # the repaired loop gives up after MAX_STALLED_ROUNDS idle rounds instead of spinning
+        raise
     finally:
         pz.get_memory_limit = saved
         del d.decompress
@@ -620,8 +625,11 @@ def run_worker_case(model, c, size, mb, fuel=300):
     d = toy_decompressor([(s[0], s[1], bytes(s[2])) for s in c["states"]], c["us"], c["isz"], c["bsz"])
     fp = SchedFP(bytes(c["packed"]))
     if want[0] == 1 and want[1] == 7:
-        got = run_worker(d, fp, size, mb, max_calls=fuel + 5)   # the model says: spins (C05/C12's finding, not ours)
-        return "spins", (None if got == ("spin",) else "Worker.decompress terminates where Mem.worker_peak runs out of fuel")
+        # the model says: never finishes (Decomp.worker_spins; C05/C12's finding).  The loop of the pinned commit spins,
+        # the repaired loop raises Bad7zFile after a few idle rounds; the bytes in play are the same either way
+        got = run_worker(d, fp, size, mb, max_calls=fuel + 5)
+        return "spins", (None if got in (("spin",), ("stall",)) else
+                         "Worker.decompress terminates where Mem.worker_peak runs out of fuel")
     try:
         got = run_worker(d, fp, size, mb)
     except EOFError:
@@ -635,7 +643,7 @@ def run_worker_case(model, c, size, mb, fuel=300):
     if ok:
         return label, None
     return label, "Worker.decompress and Mem.worker_peak disagree: implementation %r model %r" % (
-        got if got[0] in ("err", "spin") else (got[0][:30], got[1], got[2]), want)
+        got if got[0] in ("err", "spin", "stall") else (got[0][:30], got[1], got[2]), want)
 
 
 def check_toy_worker(ctx, rep, rng, tier):
